@@ -498,6 +498,10 @@ def corr_direct(ctx, form, survey, rng, npairs):
     from pyxform.utils import BRACKETED_TAG_REGEX
 
     tree = survey_tree(survey)
+    # the hypothesis `Valid` of relative_when_enclosed must hold of every tree the implementation accepted
+    ctx.count("direct:Valid-checked")
+    if not ctx.driver.call("refs.valid", tree=tree):
+        ctx.mismatch("accepted survey does not satisfy Valid (hypothesis of relative_when_enclosed)", {"form": form}, "accepted", "not Valid")
     els = survey_elements(survey)
     pairs = [(c, t) for c in els for t in els]
     if len(pairs) > npairs:
